@@ -422,4 +422,262 @@ theorem resolveFc2_spec {T} {ms ms' : Mid} (hc : Ctx T ms.base) (hI : Inv T ms) 
     have := putFc2_tot_found hI.struct hc.disj hT f hfid hv
     omega
 
+-- ------------------------------------------------------------------ v1 contracts
+
+theorem createFc1_spec {T} {ms ms' : Mid} (hc : Ctx T ms.base) (hI : Inv T ms) {id : Id} {R : List (Kind × Id)}
+    (hF : Fresh T ms ((Kind.fc1, id) :: R)) {fc : Fc1} (hbal : sumVals fc.valid = sumVals fc.missed)
+    (h : ms.createFc1 id fc = .ok ms') :
+    Inv T ms' ∧ Agree ms ms' (· = id) ∧ Fresh T ms' R ∧
+    Phi ms' = Phi ms + fc.val + fileContractTax ms.base fc.payout ∧ sfTot ms' = sfTot ms ∧
+    ms'.pool = ms.pool + fileContractTax ms.base fc.payout ∧ ms'.base = ms.base := by
+  obtain ⟨hT, hl, hb⟩ := hF.2 (Kind.fc1, id) (List.mem_cons_self)
+  simp only [] at hT hl hb
+  have hv : ms.fc1Diff? id = none := fc1Diff?_none_of_lookup hl
+  unfold Mid.createFc1 at h
+  generalize hf : (fun d : Fc1Diff => ({ d with e := { id := id, fc := fc, leaf := none }, created := true } : Fc1Diff)) = f at h
+  simp only [] at h
+  rw [bind_eq_ok] at h; obtain ⟨pool, hp, h⟩ := h
+  rw [addC_ok, putFc1_pool, putFc1_base] at hp
+  cases h
+  have hnew : fc1New ms id f = ⟨⟨id, fc, none⟩, true, none, false, false⟩ := by
+    unfold fc1New; rw [hv, ← hf]; rfl
+  have hfid : (fc1New ms id f).e.id = id := by rw [hnew]
+  have hok : Fc1Ok ms.base ms.spends (fc1New ms id f) := by
+    rw [hnew]; unfold Fc1Ok
+    refine ⟨fun _ => hb Kind.fc1, fun h => ?_, fun h => ?_, fun _ => ⟨rfl, hbal⟩⟩ <;> simp at h
+  have hA := putFc1_agree hI.struct hc.disj hT f hfid
+  have hI1 := putFc1_inv hI hc.disj hT f hfid hok
+  have hA2 : Agree (ms.putFc1 id f) { ms.putFc1 id f with pool := pool } (· = id) :=
+    agree_scalars rfl rfl rfl rfl rfl rfl rfl _
+  have hAA := hA.trans hA2
+  refine ⟨hI1.scalars rfl rfl rfl rfl rfl rfl rfl, hAA, hF.tail.agree hAA (fun q hq => hF.head_not_mem q hq), ?_, ?_, ?_,
+    putFc1_base _ _ _⟩
+  · unfold Phi
+    have e1 : scTot { ms.putFc1 id f with pool := pool } = scTot ms := scTot_congr (putFc1_base _ _ _) (putFc1_sces _ _ _)
+    have e2 : fc1Tot { ms.putFc1 id f with pool := pool } = fc1Tot (ms.putFc1 id f) := fc1Tot_congr rfl rfl
+    have e3 : fc2Tot { ms.putFc1 id f with pool := pool } = fc2Tot ms := fc2Tot_congr (putFc1_base _ _ _) (putFc1_v2fces _ _ _)
+    rw [e1, e2, e3, putFc1_tot_fresh hI.struct hc.disj hT f hfid hv (hb Kind.fc1), hnew]
+    have : fc1Dv ⟨⟨id, fc, none⟩, true, none, false, false⟩ = fc.val := rfl
+    rw [this]; simp only []; rw [hp.2]; omega
+  · exact sfTot_congr (putFc1_base _ _ _) (putFc1_sfes _ _ _)
+  · simp only []; rw [hp.2]
+
+/-- what validation establishes about a v1 contract about to be revised or proven -/
+def LiveFc1 (T : Kind → Id → Prop) (ms : Mid) (e : Fc1Elem) : Prop :=
+  T Kind.fc1 e.id ∧
+  match ms.fc1Diff? e.id with
+  | none => e ∈ ms.base.fc1
+  | some d => d.resolved = false ∧ e = d.current
+
+theorem LiveFc1.agree {T ms ms' e} {P : Id → Prop} (h : LiveFc1 T ms e) (ha : Agree ms ms' P) (hp : ¬ P e.id) :
+    LiveFc1 T ms' e := by
+  unfold LiveFc1 at *
+  rw [(ha.2 e.id hp).2.2.2.1, ha.1]; exact h
+
+theorem LiveFc1.not_fresh {T ms e R} (h : LiveFc1 T ms e) (hF : Fresh T ms R) : ∀ q ∈ R, q.2 ≠ e.id := by
+  intro q hq he
+  obtain ⟨_, hl, hb⟩ := hF.2 q hq
+  rw [he] at hl hb
+  have hv := fc1Diff?_none_of_lookup hl
+  unfold LiveFc1 at h; rw [hv] at h
+  exact hb Kind.fc1 (List.mem_map_of_mem h.2)
+
+theorem LiveFc1.bal {T ms e} (hc : Ctx T ms.base) (hI : Inv T ms) (h : LiveFc1 T ms e) :
+    sumVals e.fc.valid = sumVals e.fc.missed := by
+  unfold LiveFc1 at h
+  cases hv : ms.fc1Diff? e.id with
+  | none => rw [hv] at h; exact hc.fc1_bal e h.2
+  | some d =>
+    rw [hv] at h
+    have := ((hI.fc1 d (fc1Diff?_mem hv).1).2.2.2 h.2.1).2
+    rw [← h.2.2] at this; exact this
+
+/-- the diff function of `reviseFc1` -/
+def reviseF1 (e : Fc1Elem) (rev : Fc1) : Fc1Diff → Fc1Diff := fun d =>
+  if d.created then { d with e := { d.e with fc := { rev with payout := e.fc.payout } } }
+  else if d.revision.isSome then { d with revision := some { rev with payout := e.fc.payout } }
+  else { d with e := e, revision := some { rev with payout := e.fc.payout } }
+
+theorem reviseF1_props (e : Fc1Elem) (rev : Fc1) (d : Fc1Diff) (he : e = d.current) :
+    (reviseF1 e rev d).resolved = d.resolved ∧ (reviseF1 e rev d).created = d.created ∧
+    (reviseF1 e rev d).e.id = d.e.id ∧
+    (d.created = false → (reviseF1 e rev d).e = d.e) ∧
+    ((reviseF1 e rev d).current.fc.valid = rev.valid ∧ (reviseF1 e rev d).current.fc.missed = rev.missed ∨
+     (reviseF1 e rev d).current.fc = d.current.fc) ∧
+    ((reviseF1 e rev d).e.fc.valid = rev.valid ∨ (reviseF1 e rev d).e.fc = d.e.fc) := by
+  obtain ⟨de, dc, dr, dres, dval⟩ := d
+  unfold reviseF1 Fc1Diff.current at *
+  cases dc <;> cases dr <;> simp_all
+
+theorem reviseFc1_spec {T} {ms : Mid} (hc : Ctx T ms.base) (hI : Inv T ms) {e : Fc1Elem} (hs : LiveFc1 T ms e)
+    {rev : Fc1} (hval : sumVals rev.valid = sumVals e.fc.valid) (hmis : sumVals rev.missed = sumVals e.fc.missed) :
+    Inv T (ms.reviseFc1 e rev) ∧ Agree ms (ms.reviseFc1 e rev) (· = e.id) ∧
+    Phi (ms.reviseFc1 e rev) = Phi ms ∧ sfTot (ms.reviseFc1 e rev) = sfTot ms ∧
+    (ms.reviseFc1 e rev).pool = ms.pool ∧ (ms.reviseFc1 e rev).base = ms.base := by
+  have hT := hs.1
+  have hbal := hs.bal hc hI
+  have hfeq : ms.reviseFc1 e rev = ms.putFc1 e.id (reviseF1 e rev) := rfl
+  rw [hfeq]
+  generalize hf : reviseF1 e rev = f
+  have hnewdef : fc1New ms e.id f = reviseF1 e rev ((ms.fc1Diff? e.id).getD default) := by unfold fc1New; rw [hf]
+  -- facts about the new diff
+  have key : (fc1New ms e.id f).e.id = e.id ∧ Fc1Ok ms.base ms.spends (fc1New ms e.id f) ∧
+      fc1Dv (fc1New ms e.id f) = e.fc.val := by
+    rw [hnewdef]
+    cases hv : ms.fc1Diff? e.id with
+    | none =>
+      have hm : e ∈ ms.base.fc1 := by have := hs.2; rw [hv] at this; exact this
+      have hn : reviseF1 e rev ((none : Option Fc1Diff).getD default) =
+          ⟨e, false, some { rev with payout := e.fc.payout }, false, false⟩ := rfl
+      rw [hn]
+      refine ⟨rfl, ?_, ?_⟩
+      · unfold Fc1Ok
+        refine ⟨fun h => by simp at h, fun _ => hm, fun h => by simp at h, fun _ => ⟨?_, ?_⟩⟩
+        · show sumVals rev.valid = sumVals e.fc.valid; exact hval
+        · show sumVals rev.valid = sumVals rev.missed; rw [hval, hmis]; exact hbal
+      · show sumVals rev.valid = sumVals e.fc.valid; exact hval
+    | some d =>
+      have hd : d.resolved = false ∧ e = d.current := by have := hs.2; rw [hv] at this; exact this
+      obtain ⟨hm, hid⟩ := fc1Diff?_mem hv
+      have hok := hI.fc1 d hm
+      obtain ⟨p1, p2, p3, p4, p5, p6⟩ := reviseF1_props e rev d hd.2
+      simp only [Option.getD_some]
+      have hcur := hok.2.2.2 hd.1
+      rw [← hd.2] at hcur
+      have hvalcur : (reviseF1 e rev d).current.fc.val = e.fc.val := by
+        unfold Fc1.val
+        rcases p5 with ⟨q1, _⟩ | q
+        · rw [q1]; exact hval
+        · rw [q, ← hd.2]
+      refine ⟨p3.trans hid, ?_, ?_⟩
+      · unfold Fc1Ok
+        refine ⟨fun h => ?_, fun h => ?_, fun h => ?_, fun _ => ⟨?_, ?_⟩⟩
+        · rw [p3]; exact hok.1 (p2 ▸ h)
+        · rw [p4 (p2 ▸ h)]; exact hok.2.1 (p2 ▸ h)
+        · rw [p1, hd.1] at h; cases h
+        · rw [hvalcur]
+          unfold Fc1.val at hcur ⊢
+          rcases p6 with q | q
+          · rw [q]; exact hval.symm
+          · rw [q]; exact hcur.1
+        · rcases p5 with ⟨q1, q2⟩ | q
+          · rw [q1, q2, hval, hmis]; exact hbal
+          · rw [q, ← hd.2]; exact hbal
+      · unfold fc1Dv; rw [p1, hd.1]; simp only [Bool.false_eq_true, if_false]; exact hvalcur
+  obtain ⟨hfid, hok, hdv⟩ := key
+  have hA := putFc1_agree hI.struct hc.disj hT f hfid
+  refine ⟨putFc1_inv hI hc.disj hT f hfid hok, hA, ?_, sfTot_congr (putFc1_base _ _ _) (putFc1_sfes _ _ _),
+    putFc1_pool _ _ _, putFc1_base _ _ _⟩
+  unfold Phi
+  rw [scTot_congr (putFc1_base _ _ _) (putFc1_sces _ _ _), fc2Tot_congr (putFc1_base _ _ _) (putFc1_v2fces _ _ _),
+    putFc1_pool]
+  cases hv : ms.fc1Diff? e.id with
+  | none =>
+    have hm : e ∈ ms.base.fc1 := by have := hs.2; rw [hv] at this; exact this
+    have := putFc1_tot_base hI.struct hc.disj hT f hfid hv hm rfl (hc.nodup Kind.fc1)
+    omega
+  | some d =>
+    have hd : d.resolved = false ∧ e = d.current := by have := hs.2; rw [hv] at this; exact this
+    have hdd : fc1Dv d = e.fc.val := by unfold fc1Dv; rw [hd.1, hd.2]; rfl
+    have := putFc1_tot_found hI.struct hc.disj hT f hfid hv
+    omega
+
+/-- what is needed to resolve a v1 contract (by proof or by expiry) paying out `e`'s outputs -/
+def ResolvableFc1 (T : Kind → Id → Prop) (ms : Mid) (e : Fc1Elem) : Prop :=
+  T Kind.fc1 e.id ∧
+  match ms.fc1Diff? e.id with
+  | none => e ∈ ms.base.fc1
+  | some d => d.resolved = false ∧ d.current.fc.val = e.fc.val ∧ (d.created = false → d.revision = none → e ∈ ms.base.fc1)
+
+theorem ResolvableFc1.agree {T ms ms' e} {P : Id → Prop} (h : ResolvableFc1 T ms e) (ha : Agree ms ms' P) (hp : ¬ P e.id) :
+    ResolvableFc1 T ms' e := by
+  unfold ResolvableFc1 at *
+  rw [(ha.2 e.id hp).2.2.2.1, ha.1]; exact h
+
+theorem ResolvableFc1.not_fresh {T ms e R} (h : ResolvableFc1 T ms e) (hF : Fresh T ms R) : ∀ q ∈ R, q.2 ≠ e.id := by
+  intro q hq he
+  obtain ⟨_, hl, hb⟩ := hF.2 q hq
+  rw [he] at hl hb
+  have hv := fc1Diff?_none_of_lookup hl
+  unfold ResolvableFc1 at h; rw [hv] at h
+  exact hb Kind.fc1 (List.mem_map_of_mem h.2)
+
+theorem LiveFc1.resolvable {T ms e} (hI : Inv T ms) (h : LiveFc1 T ms e) : ResolvableFc1 T ms e := by
+  unfold LiveFc1 at h; unfold ResolvableFc1
+  refine ⟨h.1, ?_⟩
+  cases hv : ms.fc1Diff? e.id with
+  | none => rw [hv] at h; exact h.2
+  | some d =>
+    rw [hv] at h; simp only [] at h ⊢
+    refine ⟨h.2.1, by rw [h.2.2], fun hcr hrv => ?_⟩
+    have := (hI.fc1 d (fc1Diff?_mem hv).1).2.1 hcr
+    rw [h.2.2]; unfold Fc1Diff.current; rw [hrv]; exact this
+
+theorem resolveFc1_spec {T} {ms : Mid} (hc : Ctx T ms.base) (hI : Inv T ms) {e : Fc1Elem} (hs : ResolvableFc1 T ms e)
+    (v : Bool) :
+    Inv T (ms.resolveFc1 e v) ∧ Agree ms (ms.resolveFc1 e v) (· = e.id) ∧
+    Phi (ms.resolveFc1 e v) + e.fc.val = Phi ms ∧ sfTot (ms.resolveFc1 e v) = sfTot ms ∧
+    (ms.resolveFc1 e v).pool = ms.pool ∧ (ms.resolveFc1 e v).base = ms.base := by
+  have hT := hs.1
+  unfold Mid.resolveFc1
+  generalize hf : (fun d : Fc1Diff =>
+      if d.revision.isSome then ({ d with resolved := true, valid := v } : Fc1Diff)
+      else { d with e := e, resolved := true, valid := v }) = f
+  have key : (fc1New ms e.id f).e.id = e.id ∧ Fc1Ok ms.base (e.id :: ms.spends) (fc1New ms e.id f) ∧
+      fc1Dv (fc1New ms e.id f) = 0 := by
+    unfold fc1New
+    cases hv : ms.fc1Diff? e.id with
+    | none =>
+      have hm : e ∈ ms.base.fc1 := by have := hs.2; rw [hv] at this; exact this
+      have hn : f ((none : Option Fc1Diff).getD default) = ⟨e, false, none, true, v⟩ := by rw [← hf]; rfl
+      rw [hn]
+      refine ⟨rfl, ?_, rfl⟩
+      unfold Fc1Ok
+      exact ⟨fun h => by simp at h, fun _ => hm, fun _ => List.mem_cons_self, fun h => by simp at h⟩
+    | some d =>
+      have hd := hs.2; rw [hv] at hd; simp only [] at hd
+      obtain ⟨hm, hid⟩ := fc1Diff?_mem hv
+      have hok := hI.fc1 d hm
+      simp only [Option.getD_some]
+      rw [← hf]
+      obtain ⟨de, dc, dr, dres, dval⟩ := d
+      simp only [] at hd hid hok ⊢
+      cases dr with
+      | none =>
+        simp only [Option.isSome_none, Bool.false_eq_true, if_false]
+        refine ⟨by first | rfl | trivial, ?_, by first | rfl | trivial⟩
+        unfold Fc1Ok; simp only []
+        refine ⟨fun h => ?_, fun h => hd.2.2 h rfl, fun _ => List.mem_cons_self, fun h => by simp at h⟩
+        have := hok.1 h; simp only [] at this; rw [hid] at this; exact this
+      | some r =>
+        simp only [Option.isSome_some, if_true]
+        refine ⟨hid, ?_, rfl⟩
+        unfold Fc1Ok; simp only []
+        refine ⟨fun h => hok.1 h, fun h => hok.2.1 h, fun _ => by rw [hid]; exact List.mem_cons_self, fun h => by simp at h⟩
+  obtain ⟨hfid, hok, hdv⟩ := key
+  have hA1 := putFc1_agree hI.struct hc.disj hT f hfid
+  have hA2 := agree_addSpend (ms.putFc1 e.id f) e.id
+  simp only [putFc1_spends] at hA2 ⊢
+  have hI' := putFc1_inv' hI hc.disj hT f hfid (e.id :: ms.spends) (fun x hx => List.mem_cons_of_mem _ hx) hok
+  refine ⟨hI', hA1.trans hA2, ?_, sfTot_congr (putFc1_base _ _ _) (putFc1_sfes _ _ _), putFc1_pool _ _ _, putFc1_base _ _ _⟩
+  unfold Phi
+  have e1 : scTot { ms.putFc1 e.id f with spends := e.id :: ms.spends } = scTot ms :=
+    scTot_congr (putFc1_base _ _ _) (putFc1_sces _ _ _)
+  have e2 : fc1Tot { ms.putFc1 e.id f with spends := e.id :: ms.spends } = fc1Tot (ms.putFc1 e.id f) :=
+    fc1Tot_congr rfl rfl
+  have e3 : fc2Tot { ms.putFc1 e.id f with spends := e.id :: ms.spends } = fc2Tot ms :=
+    fc2Tot_congr (putFc1_base _ _ _) (putFc1_v2fces _ _ _)
+  have e4 : ({ ms.putFc1 e.id f with spends := e.id :: ms.spends } : Mid).pool = ms.pool := putFc1_pool _ _ _
+  rw [e1, e2, e3, e4]
+  cases hv : ms.fc1Diff? e.id with
+  | none =>
+    have hm : e ∈ ms.base.fc1 := by have := hs.2; rw [hv] at this; exact this
+    have := putFc1_tot_base hI.struct hc.disj hT f hfid hv hm rfl (hc.nodup Kind.fc1)
+    omega
+  | some d =>
+    have hd := hs.2; rw [hv] at hd; simp only [] at hd
+    have hdd : fc1Dv d = e.fc.val := by unfold fc1Dv; rw [hd.1]; exact hd.2.1
+    have := putFc1_tot_found hI.struct hc.disj hT f hfid hv
+    omega
+
 end Sia.Ledger
